@@ -186,7 +186,8 @@ class Gen13(Gen):
             if k == 10:
                 return f'({a} if {self.class_cond(fn, 1)} else {b})'
             if k == 11:
-                return f'(2 ** {a})'
+                # a bounded exponent: an exact power with a huge exponent is one uninterruptible big-integer operation
+                return f'(2 ** max(min({a}, 8), -8))'
             if k == 12:
                 return f'fp.round({a})'
             if ch.bool(0.5):
@@ -615,7 +616,7 @@ class Gen13(Gen):
         w = ch.choice(vs) if vs else '1'
         return ch.choice([f'{v} * 0', f'{v} - {v}', f'{v} + {w}', f'abs({v})', f'-{v}', f'min({v}, {w})', f'{v} * {w}',
                           f'1 / {v}', f'{v} / 0', f'{v} + 1', f'fp.logb({v})', f'{v}', f'{v} * {v}', f'max({v}, 0)',
-                          f'2 ** {v}', f'({v} if {v} == {v} else 0)'])
+                          f'2 ** max(min({v}, 8), -8)', f'({v} if {v} == {v} else 0)'])
 
     # .. constant family
     def stmt_const(self, fn, ind, depth, out, in_loop, in_with):
